@@ -26,3 +26,11 @@ claim("C05", "law-checking monitor over an exhaustive value grid: eight operator
       "Every ordered pair of a grid of ~100-200 values (several spellings of equal and neighbouring numbers, arithmetic results, -0, 34-digit neighbours, Go data numbers, strings, booleans, nulls) is evaluated under all eight operators; trichotomy, agreement with numeric / byte-wise order, the disjunction laws, strict-equality kind rules and the negation laws are checked on the eight results together.",
       "Trusts the decimal model's Cmp and bytes.Compare; cross-kind relational results are unspecified.",
       "5/C05")
+claim("C12", "reference-model monitor: literal grammar + exact rational value, exhaustive over short spellings",
+      "Every string of up to k symbols over the literal alphabet is classified by the reference literal grammar; well-formed spellings must evaluate (inside `[...]`) to exactly the written decimal at any digit count, malformed ones of the statement's three classes must be rejected by the real parser, alone and embedded in ten syntactic positions; random long spellings (parts up to 40 digits, separators, exponents) extend the sweep.",
+      "Trusts the reference literal grammar (60 lines) and math/big; adjusted exponents beyond +-6000 (outside decimal128) are skipped and counted.",
+      "5/C12")
+claim("C13", "round-trip monitor with a randomising reference escaper; unterminated-literal rejection",
+      "Texts over quotes, backslashes, controls, all line-break forms, multi-byte and invalid UTF-8 are escaped by a reference escaper that picks among all equivalent escape forms, then evaluated by the real code: the result must equal the text byte for byte in both quote styles; literals left open at end of input or at any line-break form must be rejected, alone and embedded.",
+      "Trusts the 50-line escaper as the meaning of the escape forms; line continuations, surrogate escapes and short \\\\x/\\\\u forms are not generated.",
+      "5/C13")
